@@ -12,6 +12,7 @@ from gwf.backends.base import BackendStatus
 from gwf.core import Target
 
 META = {
+    "solver_reasoned": 'number of tracked ids and sacct batch size (Q8d, symbolic ints); otherwise selectors over the documented state-code tables.',
     "real": ["gwf.backends.base.TrackingBackend.__init__/status/submit/close", "gwf.backends.slurm.SlurmOps.get_job_states/get_job_states_from_squeue/get_job_states_from_sacct/"
              "get_job_states_from_sacct_batched", "gwf.backends.sge.SGEOps.get_job_states", "gwf.backends.lsf.LSFOps.get_job_states", "gwf.backends.local.LocalOps.get_job_states/Client.status",
              "gwf.backends.utils.call", "gwf.backends.base.create_backend + factories"],
